@@ -16,10 +16,19 @@ From Murex Require Export Base.Outcome Base.Bytes Base.CheckLib Model.RunMode Mo
    k_leaked : processes registered by the batch still in GlobalFIDs.ListAll()
               after quiescence (polled up to 3 s);
    k_dup    : an id was seen attached to two different processes (or one process
-              under two ids) while sampling the table during the batch. *)
+              under two ids) while sampling the table during the batch;
+   k_regs, k_distinct, k_fresh : the ids collected during the case - for a
+              "register race" case (W goroutines released through a barrier, each
+              calling the real GlobalFIDs.Register on fresh processes) every returned
+              id, for a batch the id of every process seen (root forks of the programs
+              and every process sampled from the table): how many, how many distinct,
+              and whether all are above the counter at the start of the case.  For a
+              race case k_leaked is the growth of the table after everything was
+              deregistered. *)
 Record case := { k_progs : list (runmode * program * list N * N); k_trees : list ftree;
                  k_exact : bool;
-                 k_issued : N; k_leaked : N; k_dup : bool }.
+                 k_issued : N; k_leaked : N; k_dup : bool;
+                 k_regs : N; k_distinct : N; k_fresh : bool }.
 
 Definition predicted (c : case) : N :=
   fold_right (fun (x : runmode * program * list N * N) acc =>
@@ -32,9 +41,12 @@ Definition predicted (c : case) : N :=
    plus the fork and body of every function that actually ran) *)
 Definition agree (c : case) : bool :=
   N.eqb (k_leaked c) 0 && negb (k_dup c) &&
+  (* Proof/Fid.v fid_unique: the ids of any schedule are pairwise distinct and fresh *)
+  N.eqb (k_distinct c) (k_regs c) && k_fresh c &&
   (if k_exact c then N.eqb (k_issued c) (predicted c) else true).
 
 (* the property, on the observation alone *)
-Definition spec_ok (c : case) : bool := N.eqb (k_leaked c) 0 && negb (k_dup c).
+Definition spec_ok (c : case) : bool :=
+  N.eqb (k_leaked c) 0 && negb (k_dup c) && N.eqb (k_distinct c) (k_regs c) && k_fresh c.
 
 Definition classify (c : case) : N := 0%N.
